@@ -583,6 +583,12 @@ func genStorm(b *builder) {
 			serial, known := b.target()
 			a := b.args(op, serial, known)
 			st := b.callStep(client, op, a, known, pick(r, 0, 0, b.early(T)/4), model.ReplyOpts{})
+			if sc.Profile == "C03" && r.Intn(2) == 0 && len(st.Plan.Emits) == 1 {
+				// what must not be accepted must not be accepted by a process that has only just started either
+				cl := pick(r, "malformed", "malformed", "wrongfn", "wrongproto", "valid-ood")
+				st.Plan.Emits[0].Data = b.datagram(cl, op, &a, serial)
+				st.Plan.Emits[0].Class = cl
+			}
 			tk.Steps = append(tk.Steps, st)
 		}
 		sc.Tasks = append(sc.Tasks, tk)
